@@ -375,9 +375,18 @@ class PipeMachine:
             if n.get('k') == 'bin' and n['op'] == '=' and isinstance(n['l'], dict) and n['l'].get('k') == 'ref':
                 assigned.add(n['l']['n'])
         self.flags = sorted(v for v in assigned if v in self.top_decls and self.top_decls[v]['t'] == 'bool')
-        inner_bools = [v for v in assigned if v not in self.top_decls and v != self.cvar]
-        if inner_bools:
-            raise AnalysisBroken('interpPipe: framing state %s is declared inside the read loop: it would not survive a chunk boundary' % inner_bools)
+        inner = [v for v in assigned if v not in self.top_decls and v != self.cvar]
+        # a flag declared inside the read loop but outside the per-byte loop is framing state that is reset at every read(): a violation, reported by run();
+        # the model goes on with it as an ordinary flag.  A local of the per-byte loop body is a construct the model does not know.
+        per_byte = {d['n'] for d in walk(self.loop['body']) if d.get('k') == 'decl'}
+        all_decls = {d['n']: d for d in walk(f['body']) if d.get('k') == 'decl'}
+        self.chunk_reset = sorted(v for v in inner if v not in per_byte and v in all_decls and all_decls[v]['t'] == 'bool')
+        unknown = [v for v in inner if v not in self.chunk_reset]
+        if unknown:
+            raise AnalysisBroken('interpPipe: the per-byte loop assigns %s, which is neither a function-scope flag nor the current byte: outside the modelled subset' % unknown)
+        for v in self.chunk_reset:
+            self.top_decls[v] = all_decls[v]
+        self.flags = sorted(set(self.flags) | set(self.chunk_reset))
         self.counter = None
         for n in walk(self.loop['body']):
             if n.get('k') == 'un' and n['op'] in ('++', '--') and n['e'].get('k') == 'ref' and n['e']['n'] != 'i' and n['e']['n'] != 'j':
@@ -531,7 +540,12 @@ def run(src, tier, seed):
         raise AnalysisBroken('lexer: comment rule (<char>.*) not found')
     r_struct = res.rule('framer-state-at-function-scope', 'every framing flag and the parenthesis counter of interpPipe is declared outside the read loop', floor=4)
     for v in pm.flags + [pm.counter]:
-        res.ok(r_struct, 'interpPipe local %s declared at function scope (line %s)' % (v, pm.top_decls[v]['ln']))
+        if v in pm.chunk_reset:
+            res.bad(r_struct, 'framing-state-reset-per-chunk:%s' % v, fx.loc(pm.f, pm.top_decls[v]['ln']), 'interpPipe: the framing flag `%s` is declared inside the read loop, so it is '
+                    're-initialised at every read(): a token split across two reads (e.g. a backslash and the character it escapes) is framed differently from the same bytes '
+                    'arriving in one read, and from file mode' % v)
+        else:
+            res.ok(r_struct, 'interpPipe local %s declared at function scope (line %s)' % (v, pm.top_decls[v]['ln']))
     r = res.rule('framing-equivalence', 'in every reachable product state, for every input byte, the pipe framer and the lexer agree on whether a '
                  'parenthesis was opened/closed', floor=100)
     init = (pm.init_state(), lm.initial())
